@@ -84,8 +84,10 @@ uint StatCoder::decodeString(ChunkScan *c) {
   // Checking if any char has been extracted in advance
   if (c->advanced != 0) {
     // Checking if a full string is encoded in these advanced chars
+    // (the first char is jumped because it is part of the VByte encoding of
+    // the prefix length, which is 0 for lengths multiple of 128)
     c->str[prevLen + c->advanced] = 0;
-    nextLen = strlen((char *)(c->str + prevLen));
+    nextLen = 1 + strlen((char *)(c->str + prevLen + 1));
 
     if ((nextLen < c->advanced) && (nextLen > 0)) {
       uint read = prevLen + VByte::decode(&(c->strLen), c->str + prevLen);
